@@ -1,4 +1,259 @@
-/-! Graph: executable models (no Mathlib imports). -/
+/-!
+Graph: executable models and Boolean checkers for `solvor/scc.py` (property C14).
+No Mathlib imports (this file is linked into the driver `drv_graph`).
+
+A directed graph is a *node list* plus a *neighbour function* `adj : Nat → List Nat`
+(node labels are mapped to naturals by the harness; the neighbour lists keep their order and
+their duplicates).
+
+Mirrors (same iteration order, same tie-breaking, same early exits as the Python code):
+* `tarjan`   – `strongly_connected_components` (recursive `strongconnect`, explicit stack,
+               `index` / `low_link` dictionaries, `on_stack` = membership in the stack);
+* `kahn`     – `topological_sort` (in-degree dictionary, FIFO queue seeded in node-list order,
+               successors appended in neighbour order when their in-degree reaches 0,
+               INFEASIBLE iff not every node was output);
+* `condense` – `condense` (component index of every node, inter-component edge sets).
+
+Checkers (spec side, all decided with the verified reachability function `reach`):
+`chkScc`, `chkTopo`, `chkInfeasible`, `chkCondense`.
+-/
 namespace Solvor.Graph
+
+abbrev Adj := Nat → List Nat
+
+/-! ### Reachability (spec) -/
+
+/-- `Reach adj a b`: there is a walk (possibly empty) from `a` to `b` along `adj`. -/
+inductive Reach (adj : Adj) : Nat → Nat → Prop
+  | refl (a : Nat) : Reach adj a a
+  | tail {a b c : Nat} : Reach adj a b → c ∈ adj b → Reach adj a c
+
+/-- mutual reachability – the equivalence whose classes are the strongly connected components -/
+def Mutual (adj : Adj) (u v : Nat) : Prop := Reach adj u v ∧ Reach adj v u
+
+/-- `v` lies on a cycle (a non-empty closed walk; a self loop counts) -/
+def OnCycle (adj : Adj) (v : Nat) : Prop := ∃ w, w ∈ adj v ∧ Reach adj w v
+
+/-- every neighbour of a vertex of `V` is in `V` -/
+def Closed (V : List Nat) (adj : Adj) : Prop := ∀ v ∈ V, ∀ w ∈ adj v, w ∈ V
+
+/-- the neighbour function restricted to the node list (what `topological_sort` keeps:
+`if w in node_set`) -/
+def adjIn (nodes : List Nat) (adj : Adj) : Adj := fun v => (adj v).filter fun w => nodes.contains w
+
+/-! ### Reachability (executable) -/
+
+/-- first neighbour of a member of `S` that is not in `S` -/
+def frontier (adj : Adj) (S : List Nat) : Option Nat := (S.flatMap adj).find? fun w => !S.contains w
+
+/-- grow `S` by one new neighbour at a time until closed (or the fuel is spent) -/
+def closure (adj : Adj) : Nat → List Nat → List Nat
+  | 0, S => S
+  | fuel+1, S =>
+    match frontier adj S with
+    | none => S
+    | some w => closure adj fuel (S ++ [w])
+
+/-- duplicate-free version of a list (keeps the last occurrences) -/
+def dedup : List Nat → List Nat
+  | [] => []
+  | x :: xs => if xs.contains x then dedup xs else x :: dedup xs
+
+/-- everything reachable from a member of `src`, inside a universe `U` that is closed under `adj`
+(`U.length` rounds suffice, see `mem_reach_iff`) -/
+def reach (adj : Adj) (U : List Nat) (src : List Nat) : List Nat := closure adj U.length (dedup src)
+
+/-! ### Checkers -/
+
+def closedB (V : List Nat) (adj : Adj) : Bool := V.all fun v => (adj v).all fun w => V.contains w
+
+/-- no edge from an earlier class to a later one (sinks first) -/
+def orderB (adj : Adj) : List (List Nat) → Bool
+  | [] => true
+  | a :: rest => (rest.all fun b => a.all fun u => (adj u).all fun w => !b.contains w) && orderB adj rest
+
+/-- class `c` is non-empty and strongly connected: every member is reachable from the head and
+reaches the head -/
+def strongB (V : List Nat) (adj : Adj) (c : List Nat) : Bool :=
+  match c with
+  | [] => false
+  | h :: _ => c.all fun v => (reach adj V [h]).contains v && (reach adj V [v]).contains h
+
+/-- the certificate check of `scc_cert`: `V` closed, `comps` a partition of `V` into non-empty
+strongly connected classes, no edge from an earlier to a later class -/
+def chkScc (V : List Nat) (adj : Adj) (comps : List (List Nat)) : Bool :=
+  closedB V adj &&
+  decide comps.flatten.Nodup &&
+  comps.flatten.all (fun v => V.contains v) &&
+  V.all (fun v => comps.flatten.contains v) &&
+  comps.all (strongB V adj) &&
+  orderB adj comps
+
+/-- `order` is a permutation of `nodes` and every edge between nodes points forward -/
+def chkTopo (nodes : List Nat) (adj : Adj) (order : List Nat) : Bool :=
+  decide order.Nodup && order.all (fun v => nodes.contains v) && nodes.all (fun v => order.contains v) &&
+  nodes.all fun u => (adj u).all fun w => !nodes.contains w || decide (order.idxOf u < order.idxOf w)
+
+/-- some node lies on a cycle of the graph induced on `nodes` -/
+def cyclicB (nodes : List Nat) (adj : Adj) : Bool :=
+  nodes.any fun v => (adjIn nodes adj v).any fun w => (reach (adjIn nodes adj) nodes [w]).contains v
+
+/-- index of the class containing `v` -/
+def compIdx (comps : List (List Nat)) (v : Nat) : Option Nat := comps.findIdx? fun c => c.contains v
+
+/-- `cadj[i]` lists exactly the classes `j ≠ i` joined to class `i` by an original edge
+(order and repetitions inside `cadj[i]` are irrelevant: the code builds a set) -/
+def chkCondEdges (adj : Adj) (comps : List (List Nat)) (cadj : List (List Nat)) : Bool :=
+  decide (cadj.length = comps.length) &&
+  (List.range comps.length).all fun i =>
+    (List.range comps.length).all fun j =>
+      ((cadj.getD i []).contains j) ==
+        (i != j && (comps.getD i []).any fun u => (adj u).any fun w => (comps.getD j []).contains w)
+
+def chkCondense (V : List Nat) (adj : Adj) (comps : List (List Nat)) (cadj : List (List Nat)) : Bool :=
+  chkScc V adj comps && chkCondEdges adj comps cadj &&
+  cadj.all (fun l => l.all fun j => decide (j < comps.length))
+
+/-! ### Mirror of `topological_sort` (Kahn) -/
+
+/-- one step of `for w in adjacency[v]: in_degree[w] -= 1; if in_degree[w] == 0: queue.append(w)` -/
+def relax (st : (Nat → Int) × List Nat) (w : Nat) : (Nat → Int) × List Nat :=
+  let d : Nat → Int := fun x => if x = w then st.1 x - 1 else st.1 x
+  (d, if d w = 0 then st.2 ++ [w] else st.2)
+
+/-- `while queue:` – pop left, output, relax the successors -/
+def kahnLoop (nodes : List Nat) (adj : Adj) : Nat → (Nat → Int) → List Nat → List Nat → List Nat
+  | 0, _, _, res => res
+  | _+1, _, [], res => res
+  | fuel+1, deg, v :: q, res =>
+    let st := (adjIn nodes adj v).foldl relax (deg, q)
+    kahnLoop nodes adj fuel st.1 st.2 (res ++ [v])
+
+/-- the in-degree dictionary after the construction loop: one increment per edge occurrence
+`v → w` with `v` in the node list and `w in node_set` -/
+def indeg0 (nodes : List Nat) (adj : Adj) : Nat → Int :=
+  fun x => ((nodes.flatMap (adjIn nodes adj)).count x : Nat)
+
+/-- `topological_sort`: `none` = INFEASIBLE.  Every pass of the loop outputs a node, so
+`nodes.length` passes suffice (proved: `kahn_correct`). -/
+def kahn (nodes : List Nat) (adj : Adj) : Option (List Nat) :=
+  let deg := indeg0 nodes adj
+  let res := kahnLoop nodes adj nodes.length deg (nodes.filter fun v => deg v == 0) []
+  if res.length = nodes.length then some res else none
+
+/-! ### Mirror of `strongly_connected_components` (Tarjan) -/
+
+structure TState where
+  next  : Nat                    -- index_counter[0]
+  stack : List Nat               -- head = top of `stack`; `on_stack` = membership
+  index : Nat → Option Nat       -- `index` dict
+  low   : Nat → Nat              -- `low_link` dict (only read where `index` is set)
+  comps : List (List Nat)        -- `components`, in emission order
+  iters : Nat
+
+def TState.init : TState := ⟨0, [], fun _ => none, fun _ => 0, [], 0⟩
+
+def TState.setLow (s : TState) (v x : Nat) : TState :=
+  { s with low := fun y => if y = v then x else s.low y }
+
+/-- `while True: w = stack.pop(); component.append(w); if w == v: break` -/
+def popTo (v : Nat) : List Nat → List Nat → List Nat × List Nat
+  | [], acc => (acc.reverse, [])
+  | w :: st, acc => if w = v then ((w :: acc).reverse, st) else popTo v st (w :: acc)
+
+/-- `strongconnect(v)`; the fuel bounds the recursion depth -/
+def visit (adj : Adj) : Nat → Nat → TState → TState
+  | 0, _, s => s
+  | fuel+1, v, s =>
+    let i := s.next
+    let s1 : TState :=
+      { s with next := i + 1, stack := v :: s.stack,
+               index := fun y => if y = v then some i else s.index y,
+               low := fun y => if y = v then i else s.low y,
+               iters := s.iters + 1 }
+    let s2 := (adj v).foldl (fun (s : TState) w =>
+      match s.index w with
+      | none =>
+        let s' := visit adj fuel w s
+        s'.setLow v (min (s'.low v) (s'.low w))
+      | some iw =>
+        if s.stack.contains w then s.setLow v (min (s.low v) iw) else s) s1
+    if s2.low v = i then
+      let p := popTo v s2.stack []
+      { s2 with stack := p.2, comps := s2.comps ++ [p.1] }
+    else s2
+
+/-- `for v in node_list: if v not in index: strongconnect(v)` -/
+def tarjanState (adj : Adj) (fuel : Nat) (nodes : List Nat) : TState :=
+  nodes.foldl (fun s v => if (s.index v).isSome then s else visit adj fuel v s) TState.init
+
+/-- components in emission order; `U` is any universe closed under `adj` containing `nodes`
+(the recursion is never deeper than the number of distinct vertices) -/
+def tarjan (U : List Nat) (nodes : List Nat) (adj : Adj) : List (List Nat) :=
+  (tarjanState adj (U.length + 1) nodes).comps
+
+/-! ### Mirror of `condense` -/
+
+/-- `condensed_edges[i]` as a duplicate-free list, in first-insertion order (the code keeps a
+set, so only membership is observable) -/
+def condEdges (nodes : List Nat) (adj : Adj) (comps : List (List Nat)) : List (List Nat) :=
+  (List.range comps.length).map fun i =>
+    dedup ((nodes.filter fun v => compIdx comps v == some i).flatMap fun v =>
+      (adj v).filterMap fun w =>
+        match compIdx comps w with
+        | some j => if j != i then some j else none
+        | none => none)
+
+/-! ### Clause checks for inputs whose neighbour lists leave the node list
+
+The property does not say whether the graph meant is the one *induced* on the node list
+(reading A: `topological_sort` filters with `if w in node_set`) or the one *explored* from it
+(reading B: `strongly_connected_components` follows every neighbour).  For such inputs the check
+decides only the clauses required under both readings (`…Open` below); the strict checkers above
+are evaluated under each reading and merely counted. -/
+
+/-- (A ∩ B) for SCC: duplicate-free non-empty classes covering the node list inside the explored
+set; members of the node list that share a class are mutually reachable in the explored graph;
+nodes mutually reachable inside the node list share a class; no edge of the induced graph goes
+from an earlier to a later class. -/
+def chkSccOpen (U : List Nat) (nodes : List Nat) (adj : Adj) (comps : List (List Nat)) : Bool :=
+  let VB := reach adj U nodes
+  let aIn := adjIn nodes adj
+  decide comps.flatten.Nodup && comps.all (fun c => !c.isEmpty) &&
+  nodes.all (fun v => comps.flatten.contains v) &&
+  comps.flatten.all (fun v => VB.contains v) &&
+  comps.all (fun c => c.all fun u => c.all fun v =>
+    !(nodes.contains u && nodes.contains v) || (reach adj U [u]).contains v) &&
+  nodes.all (fun u => nodes.all fun v =>
+    !((reach aIn nodes [u]).contains v && (reach aIn nodes [v]).contains u) ||
+      compIdx comps u == compIdx comps v) &&
+  orderB aIn (comps.map fun c => c.filter fun v => nodes.contains v)
+
+/-- (A ∩ B) for a returned order: duplicate-free, covers the node list, stays inside the explored
+set, every edge between two members of the node list points forward. -/
+def chkTopoOpen (U : List Nat) (nodes : List Nat) (adj : Adj) (order : List Nat) : Bool :=
+  let VB := reach adj U nodes
+  decide order.Nodup && nodes.all (fun v => order.contains v) && order.all (fun v => VB.contains v) &&
+  nodes.all fun u => (adj u).all fun w => !nodes.contains w || decide (order.idxOf u < order.idxOf w)
+
+/-- (A ∩ B) for `condense`: every listed edge is backed by an edge of the explored graph between
+the two classes, every edge of the induced graph between different classes is listed, and the
+listed graph is acyclic (no class lies on a cycle, self loops included). -/
+def chkCondOpen (U : List Nat) (nodes : List Nat) (adj : Adj) (comps cadj : List (List Nat)) : Bool :=
+  let k := comps.length
+  let cfn : Adj := fun i => cadj.getD i []
+  chkSccOpen U nodes adj comps && decide (cadj.length = k) &&
+  cadj.all (fun l => l.all fun j => decide (j < k)) &&
+  (List.range k).all (fun i => (cfn i).all fun j =>
+    i != j && (comps.getD i []).any fun u => (adj u).any fun w => (comps.getD j []).contains w) &&
+  nodes.all (fun u => (adjIn nodes adj u).all fun w =>
+    match compIdx comps u, compIdx comps w with
+    | some i, some j => i == j || (cfn i).contains j
+    | _, _ => false) &&
+  !cyclicB (List.range k) cfn
+
+def condense (U : List Nat) (nodes : List Nat) (adj : Adj) : List (List Nat) × List (List Nat) :=
+  let comps := tarjan U nodes adj
+  (comps, condEdges nodes adj comps)
 
 end Solvor.Graph
